@@ -309,6 +309,41 @@ theorem gate_order_matches_source :
 
 -- ================================================================ remote endpoint
 
+/-- **the permission loop, for arbitrary permission lists**: `for _, accessPerm := range
+    adminAccess.Permissions` lets a request through iff EVERY entry allows both its method (nil
+    list or listed) and its path (nil list or some listed prefix) — each entry decided on its own,
+    nothing carried from one entry to the next; no entries = everything allowed. -/
+theorem permissions_every_entry_must_allow (method path : Bytes) (perms : List Perm) :
+    permsCheck method path perms = .allow ↔ ∀ p ∈ perms, PermAllows p method path :=
+  permsCheck_allow method path perms
+
+/-- … and the FIRST entry that does not allow decides the refusal, its method being looked at
+    before its path (403 "not authorized to use this method" / "… to access this path"). -/
+theorem permissions_first_failing_entry_decides (method path : Bytes) (pre post : List Perm) (q : Perm)
+    (hpre : ∀ p ∈ pre, PermAllows p method path) (hq : ¬ PermAllows q method path) :
+    permsCheck method path (pre ++ q :: post) =
+      if methodOK q method = false then .methodDenied else .pathDenied := by
+  induction pre with
+  | nil =>
+    simp only [List.nil_append]
+    unfold permsCheck
+    by_cases hm : methodOK q method = true
+    · have hp : pathOK q path = false := by
+        cases hpo : pathOK q path with
+        | false => rfl
+        | true => exact absurd ⟨(methodOK_iff q method).1 hm, (pathOK_iff q path).1 hpo⟩ hq
+      simp [hm, hp]
+    · have hm' : methodOK q method = false := by simpa using hm
+      simp [hm']
+  | cons a pre ih =>
+    have ha := hpre a (by simp)
+    have h1 : methodOK a method = true := (methodOK_iff a method).2 ha.1
+    have h2 : pathOK a path = true := (pathOK_iff a path).2 ha.2
+    simp only [List.cons_append]
+    unfold permsCheck
+    simp only [h1, h2, Bool.not_true, Bool.false_eq_true, if_false]
+    exact ih (fun p hp => hpre p (by simp [hp]))
+
 /-- **remote: served only if authorised** — including the target of every /id/ redirect, which
     is re-authorised with its own path.  Whenever a handler runs for path `d.path`, the connection
     has verified chains, one of their certificates carries a key listed in an ACL entry, and every
@@ -524,6 +559,16 @@ example : Served (serveReal count (newAdminHandler exRemoteCfg exRemoteAddr true
 -- … an /id/ redirect whose target the key may not access is refused at the second pass …
 example : (serveReal count (newAdminHandler ⟨none, false, some [⟨[1], [⟨none, some [str "/id/"]⟩]⟩]⟩ exRemoteAddr true [])
     [(str "x", str "/stop")] 3 (exRemoteReq "GET" "/id/x" [[1]]) 0).final = .refused .aclPath := by decide
+-- permissions_*: two entries, the second refuses the path although the first allowed it
+example : (∀ p ∈ [(⟨none, some [str "/config/"]⟩ : Perm)], PermAllows p (str "GET") (str "/config/x"))
+    ∧ ¬ PermAllows ⟨none, some [str "/id/"]⟩ (str "GET") (str "/config/x")
+    ∧ permsCheck (str "GET") (str "/config/x") [⟨none, some [str "/config/"]⟩, ⟨none, some [str "/id/"]⟩] = .pathDenied := by
+  refine ⟨?_, ?_, by decide⟩
+  · intro p hp; simp at hp; subst hp; exact ⟨Or.inl rfl, Or.inr ⟨_, rfl, str "/config/", by simp, by decide⟩⟩
+  · rintro ⟨_, h⟩
+    rcases h with h | ⟨ps, hps, ap, hap, hpre⟩
+    · cases h
+    · cases hps; simp at hap; subst hap; revert hpre; decide
 -- remote_unlisted_identity_401: hypotheses hold for a client presenting only key 7
 example : (newAdminHandler exRemoteCfg exRemoteAddr true []).remote = some exAcl ∧
     (exRemoteReq "GET" "/config/" [[7]]).tls = some [[7]] ∧ ¬ KeyListed exAcl [[7]] := by decide
